@@ -136,7 +136,9 @@ func listPushSites(ld *Loaded) []StructObl {
 // tryReplay attempts to run the solver's counterexample against the real code.
 // Returns true if a failing input was demonstrated on the real code.
 func tryReplay(opt *Options, ld *Loaded, sf *SpecFile, o *Obl, rep map[string]interface{}) bool {
-	return false
+	defer func() { recover() }()
+	// functions over scalars: search the real code for an input that contradicts the failed clause (replay_scalar.go)
+	return scalarReplay(opt, ld, sf, o, rep)
 }
 
 // replayFile re-runs a recorded violation: prints the failed obligation with the solver's
@@ -159,6 +161,10 @@ func replayFile(opt *Options, path string) int {
 	if in, ok := rep["inputs"]; ok {
 		b, _ := json.MarshalIndent(in, "", " ")
 		fmt.Printf("inputs extracted from the model:\n%s\n", b)
+	}
+	if k, _ := rep["replay_kind"].(string); k == "scalar" {
+		fmt.Printf("recorded failing input: %v (observed %v)\n%v\n", rep["inputs"], rep["observed"], rep["replay_note"])
+		return replayScalar(opt, rep)
 	}
 	tf, _ := rep["replay_test"].(string)
 	tn, _ := rep["replay_test_name"].(string)
